@@ -99,9 +99,14 @@ def needs_quoting(string: str, allow_reserved: bool, allow_num: bool) -> bool:
 
     string = string.lower()
 
+    # Partial reserved keywords (UNION, EXCEPT, INTERSECT) are only
+    # accepted bare as pointer names; quote them like the reserved ones.
     is_reserved = (
         string not in {'__type__', '__std__'}
-        and string in keywords.by_type[keywords.RESERVED_KEYWORD]
+        and (
+            string in keywords.by_type[keywords.RESERVED_KEYWORD]
+            or string in keywords.by_type[keywords.PARTIAL_RESERVED_KEYWORD]
+        )
     )
 
     return (
